@@ -29,3 +29,20 @@ prop("C12", level="proof",
      explanation="Rule algebra laws as lemmas over the contracts of the verdict pipeline.",
      roots=["Rule.assert_applies"],
      trusted_base=_TB)
+
+_RULE_NOTE = ("Assumed: AbstractGraph accessor contracts (networkx DiGraph), dataclass field access, re.match as an uninterpreted "
+              "relation, pyvc itself. Partial correctness (termination of the worklist loops is not proved).")
+prop("C01", level="proof",
+     level_text="Unbounded proof: Rule.assert_applies and every function between it and the three graph searches are verified against "
+                "contracts (pre/post, exact raises-iff, loop invariants); the verdict specification they establish is proved equal to the "
+                "documented semantics (lemma C01_verdict_is_documented_semantics) for all graphs and all finite subject/object sets that "
+                "are pairwise unrelated, both filter kinds, all 12 shapes and the two 'anything' aliases.",
+     level_note=_RULE_NOTE, explanation="Verdict = documented semantics, as a lemma over the contracts of the verdict pipeline.",
+     roots=["Rule.assert_applies", "C01_verdict_is_documented_semantics"], trusted_base=_TB)
+prop("C11", level="proof",
+     level_text="Unbounded proof: ModuleNameConverter.convert is verified (regex -> one name filter per matching module, ImpossibleMatch iff a "
+                "regex matches nothing); expansion, batch-subjects and batch-objects laws are lemmas over the verdict specification "
+                "Rule.assert_applies is proved against; have_name_containing configures exactly the translated regex filter.",
+     level_note=_RULE_NOTE + " The glob->regex translation itself is verified at string level under C08.",
+     explanation="Regex/batch specifications equal their expansions: lemmas over proved contracts.",
+     roots=["Rule.assert_applies", "ModuleNameConverter.convert"], trusted_base=_TB)
